@@ -194,6 +194,11 @@ def run(ctx):
     sout = os.path.join(ctx.scratch, 'c14_stress.json')
     ctx.run_driver(drv, ['stress', sout], timeout=300)
     st = vf.read_json(sout)
+    sfail = st.get('straddling_failures') or []
+    if any('not a verdict' in x for x in sfail):
+        raise vf.Inconclusive('straddling handshakes: %s' % sfail[:2])
+    if sfail:
+        ctx.violation({'check': 'C14', 'kind': 'handshake_across_reload_fails'}, 'a handshake that was in progress while the pair was rotated and reloaded: %s' % sfail[0], st)
     if st['handshakes_with_mismatching_key'] or st['handshakes_other']:
         ctx.violation({'check': 'C14', 'kind': 'bad_pair_presented_under_stress'}, 'stress: %s' % st, st)
     samples = []
